@@ -83,7 +83,7 @@ theorem applyExpdK_twice (χd φ : Vec3 → K) (entries : List (Vec3 × K)) :
 theorem cornerPath_eq_fftPath (Finv : (Vec3 → K) → Vec3 → K) (N : Mesh) (χd φ : Vec3 → K)
     (entries : List (Vec3 × K)) (m : Vec3) :
     cornerPath Finv N χd φ entries m = fftPath Finv N (fun R => χd R * φ R) entries m := by
-  unfold cornerPath fftPath
+  unfold cornerPath fftPath fftCore
   have : (applyExpdK χd entries).map (·.1) = entries.map (·.1) := by
     unfold applyExpdK; rw [List.map_map]; rfl
   rw [← this, mulArr_own, applyExpdK_twice]
